@@ -86,8 +86,9 @@ class World:
         import xyzpy as xyz
 
         r = xyz.Runner(self.f, var_names="out")
-        dc = ({a: _ns["scripted"](a) for a in CH} if scripted
-              else {a: list(v) for a, v in CH.items()})
+        # (choices listed in another order than the function's signature)
+        dc = ({a: _ns["scripted"](a) for a in ("b", "a")} if scripted
+              else {a: list(CH[a]) for a in ("b", "a")})
         return xyz.Sampler(r, data_name=self.path, engine=self.cfg["engine"],
                            default_combos=dc)
 
